@@ -216,8 +216,8 @@ def fmt_float(x):
     return r
 
 
-def display(v, heap, depth=0):
-    """-> list of segments: str | ('int', term) | ('bool', term)"""
+def display(v, heap, depth=0, open_lists=()):
+    """-> list of segments: str | ('int', term) | ('bool', term).  A list met again while it is being written is "[...]"."""
     k = v.kind
     if k == "null":
         return [""]
@@ -236,13 +236,15 @@ def display(v, heap, depth=0):
     if k == "func":
         return ["functie"]
     if k == "arr":
-        if depth > 6:
-            raise Unsupported("display of deeply nested / cyclic array")
+        if v.p in open_lists:
+            return ["[...]"]
+        if depth > 12:
+            raise Unsupported("display of a deeply nested array")
         out = ["["]
         for i, x in enumerate(heap.get(v.p)):
             if i:
                 out.append(", ")
-            out += display(x, heap, depth + 1)
+            out += display(x, heap, depth + 1, open_lists + (v.p,))
         out.append("]")
         return out
     raise AssertionError(k)
